@@ -13,11 +13,11 @@ type base struct {
 	opts        core.WorkerOpts
 }
 
-func (b *base) ID() string              { return b.id }
-func (b *base) Level() string           { return b.level }
-func (b *base) Rule() string            { return b.rule }
-func (b *base) Assumptions() []string   { return b.assumptions }
-func (b *base) Opts() core.WorkerOpts   { return b.opts }
+func (b *base) ID() string            { return b.id }
+func (b *base) Level() string         { return b.level }
+func (b *base) Rule() string          { return b.rule }
+func (b *base) Assumptions() []string { return b.assumptions }
+func (b *base) Opts() core.WorkerOpts { return b.opts }
 
 const (
 	lvlExploration = "exploration"
